@@ -119,7 +119,7 @@ CLAIMS["C20"] = dict(
     technique="Lean 4 invariant proof over an LTS + trace validation against the real code")
 
 CLAIMS["C10"] = dict(
-    text="29 Lean theorems over all event lists of LTS models of Semaphore and CapacityLimiter (any number of "
+    text="35 Lean theorems over all event lists of LTS models of Semaphore and CapacityLimiter (any number of "
          "tasks and borrowers): permit conservation (value + holders + in-flight + lost = initial + extra "
          "releases), holders never exceed existing permits, value <= max_value, value > 0 implies an empty "
          "queue, no barging, FIFO hand-over to the first live waiter, cancel-safety (a cancelled waiter changes "
@@ -127,7 +127,10 @@ CLAIMS["C10"] = dict(
          "rejected with the state unchanged; limiter: every wake-up (release, cancelled waiter's give-back, "
          "total_tokens setter) starts from borrowed < total, borrowed <= total while total was never lowered "
          "below the number borrowed and never increases above it otherwise, no idle token while anyone is "
-         "queued, statistics equal the ghost counts, one token per borrower, quiescence. Tied to the code by "
+         "queued, statistics equal the ghost counts, one token per borrower, quiescence. Semaphore FIFO at history "
+         "level (Props/C10fifo.lean, 6 theorems, same construction as C09fifo): for every event list the hand-overs "
+         "followed by the queue are a subsequence of the waiting order, every start of waiting is accounted for "
+         "exactly once (served / cancelled / still queued), exact equality without cancellations. Tied to the code by "
          "replaying every loop handle of generated programs in the models, plus a history oracle.",
     design="5/C10",
     note=BASE_NOTE + "Limiter theorems are conditional on two decidable history predicates "
